@@ -12,10 +12,12 @@ PROP = {'gen_tables': ['Pools'],
          'logger-level actions as above on other loggers, single and double runtime.GC(). seq mode (about 90 %): goroutine pinned with '
          'LockOSThread + GOMAXPROCS(1), two GCs (all pools empty) → observe B0, history, observe B1, observe B2; every 14th case (40th '
          'thorough) and the targeted ones also run the observed call as the FIRST call of a fresh harness process. conc mode: 2–4 goroutines '
-         'replay the history on their own loggers while the observed call is made 10–80 times; built with -race. 28 targeted histories '
-         'come first (reflection buffer / namespaces / panicking field / huge entry; hooks, error outputs and dropped or written checked '
-         'entries followed by a core-level Check; deep then shallow stack captures; error arrays of both packages), JSON × console × '
-         'prebuilt. Oracle: bytes at the observed sink, bytes at the observed error output, write count, panic text and hook calls equal '
+         'replay the history on their own loggers while the observed call is made 10–80 times; built with -race. 108 targeted histories '
+         'come first: 12 operations that each leave one kind of pooled object behind as the last object put (console / JSON entry whose '
+         'field panics with namespaces open and a reflection buffer in use; reflected values; 70 KB entries; a written entry with a hook, '
+         'an error output and a failing sink; dropped checked entries; a 300-frame stack capture; error arrays of both packages; a console '
+         'entry with every column) × 9 observed calls (logger-level JSON / console / core-level Check with failing sink / stack fields / With; '
+         'generated JSON and console encoder ops, plain and with a re-entrant sink). Oracle: bytes at the observed sink, bytes at the observed error output, write count, panic text and hook calls equal '
          'B0, and nothing reached a sink, error output or hook of the history. non-trivial = history length ≥ 1; distinct = distinct '
          'canonical op JSON',
  'assumptions': ['sync.Pool hands an object to one user at a time and returns either New() or an object that was Put before (the model '
